@@ -67,14 +67,10 @@ Fixpoint xor_all (l : list Z) : res Z :=    (* reduce(xor, data): TypeError on e
 Definition one_item_segments (chunk : scontent) (mode : Z) (encoding : option enc) : res (list segment) :=
   do s <- make_segment (pcontent_of chunk) (Some mode) encoding; Ok [s].
 
-Fixpoint longest_first (chunks : list scontent) (best : option scontent) : option scontent :=   (* max(chunks, key=len): first maximum *)
-  match chunks with
-  | [] => best
-  | c :: r => match best with
-              | None => longest_first r (Some c)
-              | Some b => if slen b <? slen c then longest_first r (Some c) else longest_first r best
-              end
-  end.
+(* the version one chunk needs with its Structured Append header:
+   find_version(one_item_segments(chunk, mode), error, eci=eci, micro=False, is_sa=True) *)
+Definition chunk_version (mode : Z) (encoding : option enc) (error : option Z) (eci : bool) (chunk : scontent) : res Z :=
+  do sg <- one_item_segments chunk mode encoding; find_version sg error eci (Some false) true.
 
 Fixpoint encode_chunks (chunks : list scontent) (i total parity mode : Z) (encoding : option enc)
          (error : option Z) (version : Z) (mask : option Z) (eci boost : bool) : res (list code) :=
@@ -134,11 +130,10 @@ Definition encode_sequence (content : scontent) (error : option Z) (version : op
       if 16 <? num_symbols then Err DataOverflow else
       let chunks := divide_into_chunks content num_symbols in
       do version' <- (match symbol_count with
-                      | Some _ => match longest_first chunks None with
-                                  | None => Err ValueError
-                                  | Some c => do sg <- one_item_segments c smode encoding;
-                                              find_version sg error eci (Some false) true
-                                  end
+                      | Some _ =>      (* the highest version any chunk needs (chunks of a text are cut by characters: a
+                                          chunk with fewer characters can need more bits); max() of a generator:
+                                          the first exception wins, ValueError on no chunk *)
+                          do vs <- seq_res (map (chunk_version smode encoding error eci) chunks); max_list vs
                       | None => match version with Some v => Ok v | None => Err TypeErr end end);
       encode_chunks chunks 0 (lenZ chunks - 1) parity smode encoding error version' mask eci boost
   end.
